@@ -908,6 +908,140 @@ def explore_literal(ctx, cases):
                           theorem="Asynkit.C04.ctx_every_segment / ctx_none_shared / eager_private_copy")
 
 
+# ---------------------------------------------------------------------------------------
+# nested use: a coroutine that itself runs in a supplied / private context starts another one
+# with eager() / coro_await(context=copy) / CoroStart(context=copy).  The inner context is a
+# distinct Context object that is EQUAL (same content) to the outer one at that moment.
+
+
+def nested_case(case):
+    """Returns None or a `bad` dict.  case: mode (outer: given|eager), variant (inner: eager|cawait|corostart),
+    vals = [a, b, c, d] distinct values, cur0, ctx0."""
+    a, b, c, d = case["vals"]
+    variant = case["variant"]
+    obs = {}
+    keep = []
+
+    async def inner():
+        obs["inner_reads_outer_write"] = VARS[0].get()         # must be `a` (copy taken at the call)
+        VARS[1].set(b)
+        await tok(1)
+        obs["inner_reads_own_write"] = VARS[1].get()           # must be `b`
+        obs["inner_sees_later_outer_write"] = VARS[2].get()     # outer wrote c after the copy: must not be c
+        VARS[0].set(d)
+        return 1
+
+    async def outer():
+        VARS[0].set(a)
+        ic = inner()
+        keep.append(ic)
+        if variant == "eager":
+            aw = asynkit.coro_eager(ic, task_factory=lambda co: co)
+            assert aw.send(None) == ("tok", 1)          # the continuation hands out the pending token
+        elif variant == "cawait":
+            aw = asynkit.coro_await(ic, context=contextvars.copy_context())
+            assert aw.send(None) == ("tok", 1)
+        else:
+            cs = asynkit.CoroStart(ic, context=contextvars.copy_context())
+            keep.append(cs)
+            aw = cs.__await__()
+            assert aw.send(None) == ("tok", 1)
+        keep.append(aw)
+        obs["outer_after_inner_start"] = [v.get() for v in VARS]   # inner's b must not be here
+        VARS[2].set(c)
+        await tok(2)                                                # outer itself suspends and is resumed
+        try:
+            aw.send(None)
+        except StopIteration:
+            pass
+        obs["outer_after_inner_end"] = [v.get() for v in VARS]     # neither b nor d
+        return 2
+
+    caller = _mk_context(case["cur0"])
+    oc = outer()
+    keep.append(oc)
+    captured = []
+    if case["mode"] == "given":
+        supplied = _mk_context(case["ctx0"], True)
+        cs = caller.run(lambda: asynkit.CoroStart(oc, context=supplied))
+        it = caller.run(cs.__await__)
+    else:
+        real_copy = contextvars.copy_context
+        first = []
+
+        def spy():
+            x = real_copy()
+            if not first:
+                first.append(x)
+            return x
+
+        async def wrapper():
+            return caller.run(lambda: asynkit.coro_eager(oc, task_factory=lambda co: co))
+
+        _acoro.copy_context = spy
+        try:
+            it = _loop().run_until_complete(wrapper())
+        finally:
+            _acoro.copy_context = real_copy
+        supplied = first[0] if first else None
+    keep.append(it)
+    try:
+        r = caller.run(lambda: it.send(None))
+        if r == ("tok", 2):
+            try:
+                caller.run(lambda: it.send(None))
+            except StopIteration:
+                pass
+    except StopIteration:
+        pass
+    base = list(case["ctx0"]) if case["mode"] == "given" else list(case["cur0"])
+    want1 = [a, base[1], base[2]]
+    want2 = [a, base[1], c]
+    checks = [
+        ("inner_reads_outer_write", a, "the inner coroutine does not see what the outer one wrote before starting it"),
+        ("inner_reads_own_write", b, "the inner coroutine does not read its own earlier write"),
+        ("inner_sees_later_outer_write", base[2], "a later write of the outer coroutine is visible in the inner one's private context"),
+        ("outer_after_inner_start", want1, "a write of the inner coroutine is visible in the outer coroutine's context"),
+        ("outer_after_inner_end", want2, "a write of the inner coroutine is visible in the outer coroutine's context"),
+    ]
+    bad = None
+    for k, want, what in checks:
+        if obs.get(k) != want:
+            bad = dict(fail=k, what=f"nested {variant} inside a coroutine run with a {case['mode']} context: {what} "
+                                    f"({k}: expected {want}, observed {obs.get(k)})", expected=want, observed=obs.get(k))
+            break
+    if bad is None and _snap(caller) != list(case["cur0"]):
+        bad = dict(fail="caller", what="nested: the outermost caller's context changed", expected=case["cur0"],
+                   observed=_snap(caller))
+    if bad is None and supplied is not None and _snap(supplied) != want2:
+        bad = dict(fail="supplied", what=f"nested: the outer coroutine's context holds {_snap(supplied)}, its own writes give {want2}",
+                   expected=want2, observed=_snap(supplied))
+    with warnings.catch_warnings():
+        warnings.simplefilter("ignore")
+        for o in reversed(keep):
+            try:
+                if hasattr(o, "close") and not isinstance(o, asynkit.CoroStart):
+                    contextvars.Context().run(o.close)
+            except BaseException:  # noqa: BLE001
+                pass
+    return bad
+
+
+def nested_stream(ctx, rng, n):
+    for _ in range(n):
+        vals = rng.sample(range(1, 10), 4)
+        cur0 = [0, rng.choice([0, 11]), 0]
+        case = {"stream": "nested", "mode": rng.choice(["given", "eager"]),
+                "variant": rng.choice(["eager", "cawait", "corostart"]), "vals": vals, "cur0": cur0,
+                "ctx0": [0, rng.choice([0, 12]), 0]}
+        bad = nested_case(case)
+        ctx.case(case_text(case), ["nested-" + case["variant"] + "-in-" + case["mode"]])
+        if bad is not None:
+            ctx.violation(f"nested-{case['variant']}:{bad['fail']}", bad["what"], case,
+                          expected=bad["expected"], observed=bad["observed"],
+                          theorem="Asynkit.C04.ctx_every_segment / eager_private_copy (applied at each level)")
+
+
 def corpus_cases():
     d = core.ROOT / "corpus" / PROP
     out = []
@@ -946,6 +1080,7 @@ def run(ctx):
     explore(ctx, corpus_cases(), label="corpus: ")
     explore(ctx, list(exhaustive_cases()), label="fixed family: ")
     explore_literal(ctx, literal_cases(rng, 0) + literal_cases(rng, 2))
+    nested_stream(ctx, rng, 1200 if ctx.thorough() else 240)
     n = 400000 if ctx.thorough() else 30000
     cases = [gen_case(rng) for _ in range(n)]
     for i in range(0, len(cases), 4000):
@@ -981,6 +1116,13 @@ def replay(ctx, data):
     case = {k: v for k, v in data["case"].items() if k not in ("failing_step", "driver_lines")}
     if "lit" in case:
         explore_literal(ctx, [case])
+        return
+    if case.get("stream") == "nested":
+        bad = nested_case(case)
+        ctx.case(case_text(case), ["replay"])
+        if bad is not None:
+            ctx.violation(data.get("key", "nested"), "replay: " + bad["what"], case, expected=bad["expected"],
+                          observed=bad["observed"], theorem="Asynkit.C04.ctx_every_segment")
         return
     if case.get("mode") == "eager-task":
         bad = eager_loop(ctx, case)
